@@ -5,6 +5,7 @@ operation becomes a safety obligation unless a handler of the real code catches 
 """
 import ast
 import importlib
+import os
 import time
 
 import z3
@@ -18,7 +19,7 @@ from pv.state import State, ARR_II, ARR_IS
 from pv.values import (VMap, V, VInt, VBool, VStr, VNONE, VNoneT, VTuple, VRef, VList, VOpt, VPy, VFn, VAny,
                        OutOfSubset, fresh, fresh_name, kind_of, I, B, S)
 
-MAX_PATHS = 4000
+MAX_PATHS = int(os.environ.get('PV_MAX_PATHS', '4000'))
 
 
 class Engine:
@@ -58,7 +59,7 @@ class Engine:
         self.yield_count = 0
         self.calls_reached = 0
         self.havocked = []
-        self.deadline = time.time() + 600
+        self.deadline = time.time() + int(os.environ.get('PV_FN_DEADLINE_S', '600'))
 
     def _preorder(self, node):
         yield node
@@ -441,7 +442,7 @@ class Engine:
         if recv.cls == 're.Pattern' and attr == 'match':
             st.may_raise(recv.t == 0, 'AttributeError', 'None.match')
             return VFn('re_match', pat=recv)
-        if recv.cls == 're.Match' and attr in ('group', 'end', 'start'):
+        if recv.cls == 're.Match' and attr in ('group', 'end', 'start', 'span'):
             st.may_raise(recv.t == 0, 'AttributeError', 'None.%s' % attr)
             return VFn('re_' + attr, m=recv)
         raise OutOfSubset('attribute %s of %s' % (attr, recv.cls))
@@ -460,6 +461,29 @@ class Engine:
         ref = VRef(m, 're.Match')
         ref.match_info = (s.t, pos, n)
         ref.groups = {}
+        if isinstance(pat, VRef):
+            # a pattern held in a variable: the contract may declare that it is a plain sequence of capturing groups
+            # (match_layout={'<variable>': [1, 2]}; backed by the 're:*:shape' obligations on every live pattern it can be)
+            for vname, layout in getattr(self.ctr, 'match_layout', {}).items():
+                cand = st.env.get(vname)
+                if isinstance(cand, VRef) and cand.t.eq(pat.t):
+                    off = pos
+                    lens = []
+                    for gi in layout:
+                        ln = z3.Int(fresh_name('glen%s' % gi))
+                        ref.groups[gi] = (off, ln)
+                        lens.append(ln)
+                        off = off + ln
+                    st.assume(z3.Implies(m != 0, z3.And([l_ >= 0 for l_ in lens] + [z3.Sum(lens) == n])))
+                    ref.layout_known = True
+                    for cl in getattr(self.ctr, 'match_facts', {}).get(vname, []):
+                        env = {'s': s, 'pos': VInt(pos), 'end': VInt(pos + n), 'matched': VBool(m != 0)}
+                        for gi, (o_, l_) in ref.groups.items():
+                            env['g%d' % gi] = VStr(z3.SubString(s.t, o_, l_))
+                        t, new = self.spec_eval(st, cl, extra_env=env)
+                        for f in new:
+                            st.assume(f)
+                        st.assume(t)
         if isinstance(pat, VPy):
             # a live pattern: when it is a plain sequence of capturing groups (pv/rx.top_groups, the same structure
             # the 're:*:shape' obligations report) the groups are contiguous slices of the match
@@ -500,6 +524,9 @@ class Engine:
             return VStr(z3.SubString(s, pos, n))
         g = getattr(m, 'groups', {}).get(k)
         if g is None:
+            if getattr(m, 'layout_known', False):
+                # a group nested inside the top-level ones: it may not have taken part (None) and is some text otherwise
+                return VOpt(z3.Bool(fresh_name('gnone%d' % k)), fresh('str', 'g%d' % k))
             raise OutOfSubset('match.group(%d): the pattern is not a plain sequence of capturing groups' % k)
         return VStr(z3.SubString(s, g[0], g[1]))
 
